@@ -5,10 +5,13 @@ import (
 	"context"
 	"encoding/json"
 	"fmt"
+	"net/http"
+	"net/url"
 	"os"
 	"os/exec"
 	"path/filepath"
 	"sort"
+	"strconv"
 	"strings"
 	"syscall"
 	"time"
@@ -43,11 +46,13 @@ const (
 	optErrorRetry    = "error-retry"                       // -e 2
 	optRetryInterval = "error-retry-base-interval"         // -b 1ms
 	optVerbose       = "verbose"                           // --verbose
+	optPrintStats    = "print-stats"                       // extract --print-stats
+	optInPlace       = "in-place"                          // extract -k
 	optCfgSkipOther  = "config-skip-verify-other-location" // config: "skip-verify": true for other locations
 	optCfgSkipThis   = "config-skip-verify-this-location"  // config: "skip-verify": true for the poisoned store
 )
 
-var cliOptions = []string{optTrustInsecure, optTrustInsecure, optErrorRetry, optRetryInterval, optVerbose, optCfgSkipOther, optCfgSkipOther, optCfgSkipThis}
+var cliOptions = []string{optPrintStats, optPrintStats, optInPlace, optTrustInsecure, optTrustInsecure, optErrorRetry, optRetryInterval, optVerbose, optCfgSkipOther, optCfgSkipOther, optCfgSkipThis}
 
 func hasOpt(opts []string, o string) bool {
 	for _, x := range opts {
@@ -61,7 +66,8 @@ func hasOpt(opts []string, o string) bool {
 func genCLI(t *rapid.T) *CLI {
 	c := &CLI{}
 	c.Cmd = rapid.SampledFrom([]string{"extract", "cat", "untar"}).Draw(t, "cmd")
-	c.Role = rapid.SampledFrom([]string{"store", "store", "cache"}).Draw(t, "role")
+	// http: the poisoned store directory is served by an in-process file server under /Store/
+	c.Role = rapid.SampledFrom([]string{"store", "store", "cache", "http"}).Draw(t, "role")
 	if c.Role == "cache" {
 		c.NoRepair = rapid.IntRange(0, 2).Draw(t, "norepair") == 0
 	} else if hx.Thorough() && fakessh.HavePull() {
@@ -72,6 +78,18 @@ func genCLI(t *rapid.T) *CLI {
 		if o := rapid.SampledFrom(cliOptions).Draw(t, "opt"); !hasOpt(c.Opts, o) {
 			c.Opts = append(c.Opts, o)
 		}
+	}
+	if c.Cmd != "extract" { // options only extract has
+		var keep []string
+		for _, o := range c.Opts {
+			if o != optPrintStats && o != optInPlace {
+				keep = append(keep, o)
+			}
+		}
+		c.Opts = keep
+	}
+	if c.Role == "http" && !hasOpt(c.Opts, optCfgSkipOther) && rapid.Bool().Draw(t, "urlcase") {
+		c.Opts = append(c.Opts, optCfgSkipOther)
 	}
 	switch c.Cmd {
 	case "untar":
@@ -158,6 +176,20 @@ func runCLI(c Case) (o hx.Outcome) {
 	}
 	f.Close()
 
+	// the location the command is given for the poisoned store: the directory, or (role http)
+	// the URL under which a plain file server of this process serves that directory
+	location := poisoned
+	viaHTTP := cl.Role == "http"
+	var httpBase string
+	if viaHTTP {
+		mux := http.NewServeMux()
+		mux.Handle("/Store/", http.StripPrefix("/Store/", http.FileServer(http.Dir(poisoned))))
+		srv := startServer(mux)
+		defer srv.Close()
+		httpBase = srv.URL
+		location = httpBase + "/Store/"
+	}
+
 	// store options come from a config file (the only way to name an uncompressed store)
 	storeOpts := map[string]any{}
 	this := map[string]any{}
@@ -172,7 +204,7 @@ func runCLI(c Case) (o hx.Outcome) {
 		this["skip-verify"] = true
 	}
 	if len(this) > 0 {
-		storeOpts[poisoned] = this
+		storeOpts[location] = this
 	}
 	if hasOpt(cl.Opts, optCfgSkipOther) {
 		// entries for other locations must not leak to the store under test
@@ -181,6 +213,23 @@ func runCLI(c Case) (o hx.Outcome) {
 		storeOpts[poisoned+"-old"] = map[string]any{"skip-verify": true, "uncompressed": !unc}
 		if cl.Role != "cache" {
 			storeOpts[healthyDir] = map[string]any{"skip-verify": true} // a store the command does not use
+		}
+		if viaHTTP {
+			// URLs that are other locations by the documented matching (equal after dropping a
+			// trailing slash, or a glob match): the path in another letter case, another port,
+			// one more path element, another scheme
+			u, _ := url.Parse(httpBase)
+			port, _ := strconv.Atoi(u.Port())
+			// (one spelling per case: two entries that a matcher wrongly takes for this
+			// location would make the command refuse the ambiguous config instead)
+			folded := []string{"/store/", "/STORE", "/sTORE/", "/storE"}[cl.N&3]
+			for _, other := range []string{
+				httpBase + folded, httpBase + "/Store/sub",
+				fmt.Sprintf("http://%s:%d/Store/", u.Hostname(), port+1),
+				"https://" + u.Host + "/Store/",
+			} {
+				storeOpts[other] = map[string]any{"skip-verify": true, "uncompressed": unc}
+			}
 		}
 	}
 	cfg := map[string]any{"store-options": storeOpts}
@@ -219,6 +268,15 @@ func runCLI(c Case) (o hx.Outcome) {
 	}
 	if hasOpt(cl.Opts, optTrustInsecure) {
 		args = append(args, "-t")
+	}
+	if cl.Cmd == "extract" && hasOpt(cl.Opts, optPrintStats) {
+		args = append(args, "--print-stats")
+	}
+	if cl.Cmd == "extract" && hasOpt(cl.Opts, optInPlace) {
+		args = append(args, "-k")
+	}
+	if viaHTTP {
+		storeArg = location
 	}
 	if cl.Role == "cache" {
 		args = append(args, "-s", healthyDir, "-c", poisoned)
@@ -300,8 +358,14 @@ func runCLI(c Case) (o hx.Outcome) {
 		if op == optCfgSkipThis && !skipThis {
 			continue
 		}
+		if (op == optPrintStats || op == optInPlace) && cl.Cmd != "extract" {
+			continue
+		}
 		if effective {
 			o.Class("cli:option:" + op)
+			if op == optCfgSkipOther && viaHTTP {
+				o.Class("cli:option:" + op + ":url-case")
+			}
 		}
 	}
 	if len(cl.Opts) == 0 && effective {
@@ -379,7 +443,7 @@ func runCLI(c Case) (o hx.Outcome) {
 		o.Class("effective")
 		// consumer classes count the runs in which the damaged chunk stood between the
 		// command and its output: the poisoned store is the only source, and it verifies
-		if cl.Role == "store" && !skipThis {
+		if (cl.Role == "store" || viaHTTP) && !skipThis {
 			switch cl.Cmd {
 			case "cat":
 				o.Class("consumer:cli-cat:" + variant)
